@@ -1020,3 +1020,52 @@ def param_variants(owner: str | None, module: str, func: str, old_kw: str, clsna
                 kw['my_betas'] = ['b1', 'asc3']
         return [dict(label='value', recv=r, args=[], kwargs=kw, value=values[old_kw])]
     return None
+
+
+# ---------------------------------------------------------------------------
+# renamed keywords driven through the functions of the package that forward **kwargs to a keyword-renaming wrapper
+# ---------------------------------------------------------------------------
+
+def _mdcev(W: World, kind: str):
+    """small MDCEV model (three goods, the first always consumed) and its table"""
+    import pandas as pd
+    from biogeme.database import Database
+    from biogeme.expressions import Beta, Variable
+    from biogeme.mdcev import Translated, GammaProfile
+
+    np = _np()
+    r = np.random.RandomState(W.seed % (2 ** 31))
+    n = 30
+    q = r.uniform(0.5, 5, size=(n, 3)) * (r.uniform(size=(n, 3)) < 0.7)
+    q[:, 0] = np.maximum(q[:, 0], 0.5)
+    df = pd.DataFrame({'q1': q[:, 0], 'q2': q[:, 1], 'q3': q[:, 2], 'x1': r.uniform(0, 2, n)})
+    df['nch'] = (q > 0).sum(axis=1).astype(float)
+    db = Database('c20mdcev', df)
+    base = {1: Beta('bx', 0.1, None, None, 0) * Variable('x1'), 2: Beta('c2', -0.2, None, None, 0), 3: Beta('c3', 0.1, None, None, 0)}
+    gamma = {i: Beta(f'g{i}', 1.0, 0.01, None, 0) for i in (1, 2, 3)}
+    if kind == 'translated':
+        alpha = {i: Beta('alpha', 0.5, None, None, 1) for i in (1, 2, 3)}
+        m = Translated('c20mdcev', base, gamma, alpha_parameters=alpha)
+    else:
+        m = GammaProfile('c20mdcev', base, gamma)
+    return m, db, [Variable('nch'), {1: Variable('q1'), 2: Variable('q2'), 3: Variable('q3')}]
+
+
+def forward_variants(via: str, target: str, old_kw: str, W: World):
+    """variants for the obsolete keyword ``old_kw`` of ``target`` given to the forwarding caller ``via``;
+    None when no fixture is registered for that caller"""
+    if via == 'biogeme.biogeme.BIOGEME.recycled_estimation' and target == 'biogeme.biogeme.BIOGEME.estimate':
+        return [dict(label='no-pickle-to-recycle', recv=W.biogeme(), args=[], kwargs={}, value=True),
+                dict(label='weighted-model', recv=W.biogeme(weighted=True), args=[], kwargs={}, value=True)]
+    if via == 'biogeme.mdcev.mdcev.Mdcev.estimate_parameters' and target == 'biogeme.biogeme.BIOGEME.__init__':
+        values = {'suggestScales': True, 'numberOfThreads': 2, 'numberOfDraws': W.rng.randint(5, 50), 'missingData': 88888,
+                  'parameter_file': W.parameters(seed=7), 'userNotes': 'notes of the user', 'generateHtml': False,
+                  'saveIterations': False, 'seed_param': W.rng.randint(2, 999)}
+        out = []
+        for kind in ('translated', 'gamma_profile'):
+            m, db, rest = _mdcev(W, kind)
+            over = {'generate_html': True, 'save_iterations': True} if old_kw in ('generateHtml', 'saveIterations') else {}
+            kw = {} if old_kw == 'parameter_file' else {'parameters': W.parameters(**over)}
+            out.append(dict(label=kind, recv=m, args=[db] + rest, kwargs=kw, value=values[old_kw]))
+        return out
+    return None
